@@ -34,8 +34,9 @@ MUTABLE_ARGS = {
                                   bandwidth=float(rng.choice([40.0, 0.1])) if True else 0,
                                   center_frequencies_in_hz=np.geomspace(0.5, 20, int(rng.choice([8, 12])))),
     "fft_settings": lambda rng: [dict(norm="ortho"), dict(n=1024), dict(n=2048, norm="backward")][rng.randint(3)],
-    "azimuths_in_degrees": lambda rng: (np.arange(0, 180, int(rng.choice([45, 60]))) if rng.rand() < 0.5
-                                        else [0.0, 30.0, 90.0]),
+    # integer arrays (like the default), lists, and FRACTIONAL azimuths as array and as list
+    "azimuths_in_degrees": lambda rng: [np.arange(0, 180, int(rng.choice([45, 60]))), [0.0, 30.0, 90.0], np.array([0.0, 22.5, 45.0, 67.5, 112.5]),
+                                        [0.25, 30.5, 91.75]][rng.randint(4)],
 }
 
 
@@ -168,6 +169,40 @@ class Driver:
             obj.load(self.live[fid])
             return dict(procSame=bool(self.proc_digest(obj) == self.proc_digest(snap)))
         self.log("LoadOnto", dict(f=fid, o=o), [], f)
+
+    def load(self, fid, how):
+        h = self.h
+        src, snap = self.saved_from[fid]
+        d = self.nid("s")
+
+        def f():
+            if how == "dispatch":
+                new = h.read_settings_object_from_file(self.live[fid])
+            else:
+                new = type(snap)()
+                new.load(self.live[fid])
+            self.live[d], self.kind[d] = new, "set"
+            self.w.add(d, f"set:{type(new).__name__}", set_slots(new))
+            return dict(procSame=bool(self.proc_digest(new) == self.proc_digest(snap)))
+        srcid = self.snap_ids.get(fid)
+        if srcid is None:
+            srcid = self.snap_ids[fid] = self.nid("k")
+
+            def fs():
+                self.w.add(srcid, f"set:{type(snap).__name__}", set_slots(snap))
+                self.kind[srcid] = "snap"
+            self.log("Pristine", {}, [srcid], fs)
+        self.log("Load", dict(f=fid, o=d, src=srcid), [d], f, how=how)
+        return d
+
+    def scripted_values(self, c, attr, value):
+        """a non-default value of one attribute through save, both ways of loading, and load onto a default object"""
+        s1 = self.construct(c, **{attr: value})
+        f1 = self.save(s1)
+        self.load(f1, "dispatch")
+        self.load(f1, "direct")
+        s2 = self.construct(c)
+        self.load_onto(s2, f1)
 
     def process(self, o):
         obj = self.live[o]
@@ -370,6 +405,28 @@ def main():
             if d.failed:
                 op, roles, msg = d.failed
                 run.violation(f"settings:{op}:raised", f"scripted history ({c}, variant {variant}): {op} roles={roles} raised {msg}",
+                              dict(kind="settings-raise", ops=[e["op"] for e in d.events]))
+            traces.append(dict(ev=d.events))
+    # scripted histories: attribute values whose TYPE differs from the default's (fractional azimuths vs the integer default array,
+    # lists vs arrays, tuples) through save / load / load onto a default object
+    import inspect
+    sv = [("azimuths_in_degrees", np.array([0.0, 22.5, 45.0, 67.5, 112.5])), ("azimuths_in_degrees", [0.25, 30.5, 91.75]),
+          ("filter_corner_frequencies_in_hz", [0.25, 12.5]), ("window_type_and_width", ["tukey", 0.35])]
+    k_ = 0
+    for c in CLASSES:
+        params = inspect.signature(getattr(h, c).__init__).parameters
+        for attr, value in sv:
+            if attr not in params:
+                continue
+            k_ += 1
+            if run.quick and attr != "azimuths_in_degrees" and (k_ + run.seed) % 3:
+                continue
+            d = Driver(h, rng, wd, recs)
+            d.pristine()
+            d.scripted_values(c, attr, copy.deepcopy(value))
+            if d.failed:
+                op, roles, msg = d.failed
+                run.violation(f"settings:{op}:raised", f"scripted history ({c}, {attr}={value!r}): {op} roles={roles} raised {msg}",
                               dict(kind="settings-raise", ops=[e["op"] for e in d.events]))
             traces.append(dict(ev=d.events))
     acc = set()
